@@ -167,3 +167,58 @@ Proof.
   cbn [flatten_extends c_exts fold_left bind c_kind x_kind x_classes x_syms x_eqs x_menv c_classes c_syms c_eqs c_name app].
   destruct (Pos.eqb_spec k kBuiltin) as [->|_]; [exfalso; apply K; reflexivity | reflexivity].
 Qed.
+
+(* ---- one extends level *)
+(* one extends level: every base is extends-free and is extended without clause modifications *)
+Definition simple_base (root : list cdef) (c : cdef) (lex : path) (e : path * list marg) (b : cdef * path) : Prop :=
+  snd e = [] /\ find_base root c lex (fst e) = Ok b /\ c_exts (fst b) = [] /\ c_kind (fst b) <> kBuiltin /\
+  path_eqb (snd b ++ [c_name (fst b)]) (lex ++ [c_name c]) = false.
+
+Definition merge_base (x : ext_class) (b : cdef * path) : ext_class :=
+  mkExt (x_kind x)
+        (od_update e_key Pos.eqb (x_classes x)
+           (od_update e_key Pos.eqb [] (entries_of (snd b ++ [c_name (fst b)]) (c_classes (fst b)))))
+        (od_update s_name Pos.eqb (x_syms x) (od_update s_name Pos.eqb [] (c_syms (fst b))))
+        (x_eqs x ++ c_eqs (fst b))
+        (x_menv x).
+
+Lemma fold_bases root f c lex : forall exts bases x,
+  Forall2 (simple_base root c lex) exts bases ->
+  fold_left (fun (acc : res ext_class) (e : path * list marg) =>
+     x <- acc ;;
+     b <- find_base root c lex (fst e) ;;
+     let (bc, blex) := b in
+     if path_eqb (blex ++ [c_name bc]) (lex ++ [c_name c]) then Err OtherExc else
+     if Pos.eqb (c_kind bc) kBuiltin && (1 <? length (c_exts c))%nat then Err OtherExc else
+     let kind' := if Pos.eqb (c_kind bc) kBuiltin then kBuiltin else x_kind x in
+     r <- flatten_extends root (S f) bc blex (snd e) ;;
+     Ok (mkExt kind'
+           (od_update e_key Pos.eqb (x_classes x) (x_classes r))
+           (od_update s_name Pos.eqb (x_syms x) (x_syms r))
+           (x_eqs x ++ x_eqs r)
+           (x_menv x ++ x_menv r))) exts (Ok x)
+  = Ok (fold_left merge_base bases x).
+Proof.
+  intros exts bases x F. revert x.
+  induction F as [|e [bc blex] exts bases [Hm [Hf [He [Hk Hp]]]] F IH]; intros x; [reflexivity|].
+  cbn [fold_left bind]. rewrite Hf. cbn [bind fst snd] in *. rewrite Hp.
+  destruct (Pos.eqb_spec (c_kind bc) kBuiltin) as [E|_]; [contradiction|]. cbn [andb].
+  rewrite Hm. rewrite (flatten_extends_no_extends root f bc blex [] He Hk). cbn [bind x_classes x_syms x_eqs x_menv].
+  rewrite app_nil_r. apply IH.
+Qed.
+
+Lemma flatten_extends_elems root f c lex menv bases :
+  Forall2 (simple_base root c lex) (c_exts c) bases -> c_kind c <> kBuiltin ->
+  flatten_extends root (S (S f)) c lex menv =
+  let x := fold_left merge_base bases (mkExt (c_kind c) [] [] [] []) in
+  Ok (mkExt (c_kind c)
+        (od_update e_key Pos.eqb (x_classes x) (entries_of (lex ++ [c_name c]) (c_classes c)))
+        (od_update s_name Pos.eqb (x_syms x) (c_syms c))
+        (x_eqs x ++ c_eqs c) (x_menv x ++ menv)).
+Proof.
+  intros F K. cbn [flatten_extends]. rewrite (fold_bases root f c lex _ _ _ F). cbn [bind].
+  assert (forall bs x, x_kind (fold_left merge_base bs x) = x_kind x) as KK
+    by (induction bs as [|b bs IH]; intros x; [reflexivity | cbn [fold_left]; rewrite IH; reflexivity]).
+  cbn [x_kind]. rewrite KK. cbn [x_kind].
+  destruct (Pos.eqb_spec (c_kind c) kBuiltin); [contradiction | reflexivity].
+Qed.
